@@ -218,4 +218,45 @@ theorem codes_shape (contents codes : List Nat) (hascii : ∀ c ∈ contents, c 
           · have : c128WriterSum emitted 0 1 < 103 := c128WriterSum_lt emitted 0 1
             omega
 
+/-- shape of what the writer emits under a FORCE_CODE_SET hint -/
+theorem codes_shape_forced (f : Nat) (hf : f = 99 ∨ f = 100 ∨ f = 101) (contents codes : List Nat)
+    (hascii : ∀ c ∈ contents, c < 128) (h : code128Codes contents (some f) = .ok codes) :
+    ∃ body, codes = body ++ [106] ∧ ∀ c ∈ body, c < 106 := by
+  unfold code128Codes at h
+  simp only [bind, Except.bind, pure, Except.pure, throw, throwThe, MonadExceptOf.throw] at h
+  split at h
+  · cases h
+  · split at h
+    · cases h
+    · rename_i hall
+      split at h
+      · cases h
+      · rename_i emitted hloop
+        cases h
+        have hok : ∀ c ∈ contents, c128CharOk (some f) c = true := by
+          have : contents.all (c128CharOk (some f)) = true := by simpa using hall
+          exact List.all_eq_true.mp this
+        cases contents with
+        | nil => exfalso; simp_all
+        | cons c rest =>
+          obtain ⟨fu, hfuel⟩ : ∃ fu, 2 * (c :: rest).length + 2 = fu + 1 := ⟨2 * (c :: rest).length + 1, by omega⟩
+          rw [hfuel] at hloop
+          simp only [c128Loop] at hloop
+          have hn0 : ¬ f = 0 := by omega
+          simp only [hn0, if_false, if_true] at hloop
+          obtain ⟨em, hem, _, hlt, _⟩ := loop_spec_forced f hf fu (c :: rest) false _ emitted hascii hok
+            (Or.inr trivial) hloop
+          subst hem
+          generalize hst : (if f = 101 then 103 else if f = 100 then 104 else 105) = st at *
+          have hst' : st < 106 := by rcases hf with h | h | h <;> subst h <;> simp at hst <;> omega
+          refine ⟨(st :: em.map (·.1)) ++ [c128WriterSum ((st, false) :: em) 0 1], by simp, ?_⟩
+          intro x hx
+          simp only [List.cons_append, List.mem_append, List.mem_cons, List.mem_map, List.mem_singleton,
+            List.mem_nil_iff, or_false] at hx
+          rcases hx with rfl | ⟨e, he, rfl⟩ | rfl
+          · exact hst'
+          · exact hlt e he
+          · have := c128WriterSum_lt ((st, false) :: em) 0 1
+            omega
+
 end Gzx.Row128
